@@ -982,6 +982,8 @@ struct layout_t
 		);
 	}
 
+	constexpr auto zero_based() const { return layout_t{sub_.zero_based(), stride_, 0, nelems_}; }
+
 	constexpr auto scale(size_type num, size_type den) const {
 		assert( (stride_*num) % den == 0 );
 		assert(offset_ == 0);  // TODO(correaa) implement ----------------vvv
@@ -1104,6 +1106,7 @@ struct layout_t<0, SSize>
 
 	// [[deprecated("use two arg version")]] constexpr auto scale(size_type /*size*/) const {return *this;}
 	constexpr auto scale(size_type /*num*/, size_type /*den*/) const {return *this;}
+	constexpr auto zero_based() const { return *this; }
 
 //  friend constexpr auto operator!=(layout_t const& self, layout_t const& other) {return not(self == other);}
 	friend BOOST_MULTI_HD constexpr auto operator==(layout_t const& self, layout_t const& other) {
